@@ -1,7 +1,223 @@
-import WnVerif.Model.Graph
+/-
+C13 — taxonomy functions agree with graph-theoretic definitions on any hypernym graph.
+
+`g : Adj` is the hypernym relation of one lexicon (`get_related('hypernym',
+'instance_hypernym')` per synset), nodes are `< n`; every theorem holds for all
+such graphs, whatever their size, with or without cycles and self-loops.
+Termination "on cycles" is part of the definitions: all model functions are
+total (structural recursion on fuel `n + 1`), and `mem_relPaths` shows that this
+fuel loses no path.
+-/
+import WnVerif.Lemmas.Paths
+import WnVerif.Lemmas.Reach
+import WnVerif.Lemmas.ListAux
 namespace WnVerif.Props.C13
 open WnVerif.Graph
 
-theorem placeholder_true : True := trivial
+/-- hypernym_paths(x) is exactly the set of maximal simple hypernym chains from x
+(non-empty ones: a synset without hypernyms has no path). -/
+theorem C13_paths (g : Adj) (n : Nat) (h : InRange g n) (x : Nat) (q : List N) :
+    q ∈ hypPaths g (n + 1) (some x) false false ↔
+      ∃ p, q = p.map some ∧ p ≠ [] ∧ MaximalSimpleChain g [x] x p := by
+  simp only [hypPaths, Bool.false_and, Bool.false_eq_true, if_false, List.mem_map]
+  constructor
+  · rintro ⟨p, hp, rfl⟩
+    exact ⟨p, rfl, (mem_relPaths g n h x p).mp hp⟩
+  · rintro ⟨p, rfl, hp⟩
+    exact ⟨p, (mem_relPaths g n h x p).mpr hp, rfl⟩
+
+/-- no chain visits a synset twice, nor the start synset -/
+theorem C13_paths_simple (g : Adj) (n : Nat) (h : InRange g n) (x : Nat) (p : List Nat)
+    (hp : p ∈ relPaths g (n + 1) x) : (x :: p).Nodup :=
+  relPaths_nodup_paths g n h x p hp
+
+/-- with simulate_root every chain is continued to the fake root, and a synset
+without hypernyms gets the single chain `[*ROOT*]` -/
+theorem C13_paths_simulate_root (g : Adj) (fuel : Nat) (x : Nat) (q : List N) :
+    q ∈ hypPaths g fuel (some x) true false ↔
+      (∃ p ∈ hypPaths g fuel (some x) false false, q = p ++ [none]) ∨
+      (hypPaths g fuel (some x) false false = [] ∧ q = [none]) := by
+  simp only [hypPaths, Bool.false_and, Bool.false_eq_true, if_false, Bool.true_and]
+  have hx : ((some x : N) != none) = true := by simp
+  simp only [hx, if_true]
+  split
+  · rename_i he
+    simp [List.isEmpty_iff] at he
+    simp [he]
+  · rename_i he
+    simp [List.isEmpty_iff] at he
+    simp [he]
+    constructor
+    · rintro ⟨a, ha, rfl⟩; exact ⟨a.map some, ⟨a, ha, rfl⟩, rfl⟩
+    · rintro ⟨p, ⟨a, ha, rfl⟩, rfl⟩; exact ⟨a, ha, rfl⟩
+
+/-- min_depth / max_depth are the shortest / longest of the chains (0 without chains) -/
+theorem C13_min_depth (g : Adj) (fuel : Nat) (x : Nat) (sim : Bool) :
+    (∀ p ∈ hypPaths g fuel (some x) sim false, minDepth g fuel x sim ≤ p.length) ∧
+    (hypPaths g fuel (some x) sim false ≠ [] →
+       ∃ p ∈ hypPaths g fuel (some x) sim false, p.length = minDepth g fuel x sim) ∧
+    (hypPaths g fuel (some x) sim false = [] → minDepth g fuel x sim = 0) := by
+  refine ⟨?_, ?_, ?_⟩
+  · intro p hp
+    exact listMin_le _ _ (List.mem_map_of_mem hp)
+  · intro hne
+    have := listMin_mem ((hypPaths g fuel (some x) sim false).map List.length) (by simpa using hne)
+    simpa [minDepth] using this
+  · intro he; simp [minDepth, he, listMin]
+
+theorem C13_max_depth (g : Adj) (fuel : Nat) (x : Nat) (sim : Bool) :
+    (∀ p ∈ hypPaths g fuel (some x) sim false, p.length ≤ maxDepth g fuel (some x) sim) ∧
+    (hypPaths g fuel (some x) sim false ≠ [] →
+       ∃ p ∈ hypPaths g fuel (some x) sim false, p.length = maxDepth g fuel (some x) sim) ∧
+    (hypPaths g fuel (some x) sim false = [] → maxDepth g fuel (some x) sim = 0) := by
+  refine ⟨?_, ?_, ?_⟩
+  · intro p hp
+    exact le_listMax _ _ (List.mem_map_of_mem hp)
+  · intro hne
+    have := listMax_mem ((hypPaths g fuel (some x) sim false).map List.length) (by simpa using hne)
+    simpa [maxDepth] using this
+  · intro he; simp [maxDepth, he, listMax]
+
+/-- nodes occurring on the chains from `a` (with `a` itself) = the ancestor set of `a` -/
+theorem mem_flatten_hypPaths (g : Adj) (n : Nat) (h : InRange g n) (a y : Nat) :
+    (some y : N) ∈ (hypPaths g (n + 1) (some a) false true).flatten ↔ Reach g a y := by
+  simp only [hypPaths, Bool.false_and, Bool.false_eq_true, if_false, if_true]
+  constructor
+  · intro hm
+    split at hm
+    · simp at hm; subst hm; exact Reach.refl _
+    · simp only [List.mem_flatten, List.mem_map] at hm
+      obtain ⟨l, ⟨l', ⟨p, hp, rfl⟩, rfl⟩, hy⟩ := hm
+      rcases List.mem_cons.mp hy with hy | hy
+      · simp at hy; subst hy; exact Reach.refl _
+      · simp at hy
+        obtain ⟨_, hc⟩ := (mem_relPaths g n h a p).mp hp
+        exact chain_reach g p a hc.1 y hy
+  · intro hr
+    by_cases hya : y = a
+    · subst hya
+      split
+      · simp
+      · rename_i hne
+        simp only [List.isEmpty_iff, List.map_eq_nil_iff] at hne
+        obtain ⟨p, hp⟩ := List.exists_mem_of_ne_nil _ hne
+        simp only [List.mem_flatten, List.mem_map]
+        exact ⟨some y :: p.map some, ⟨p.map some, ⟨p, hp, rfl⟩, rfl⟩, by simp⟩
+    · obtain ⟨p, hp, hy⟩ := reach_on_relPaths g n h hr hya
+      have hne : ((relPaths g (n + 1) a).map (·.map some)).isEmpty = false := by
+        simp [List.isEmpty_iff]; intro he; rw [he] at hp; simp at hp
+      rw [hne]
+      simp only [Bool.false_eq_true, if_false, List.mem_flatten, List.mem_map]
+      exact ⟨some a :: p.map some, ⟨p.map some, ⟨p, hp, rfl⟩, rfl⟩, by simp [hy]⟩
+
+/-- common_hypernyms(a, b) is the intersection of the two ancestor sets, each
+including the synset itself -/
+theorem C13_common (g : Adj) (n : Nat) (h : InRange g n) (a b y : Nat) :
+    (some y : N) ∈ commonHypernyms g (n + 1) (some a) (some b) false ↔ Reach g a y ∧ Reach g b y := by
+  simp only [commonHypernyms, commonOf, mem_sortN, List.mem_filter, mem_dedup,
+    List.contains_iff_mem, mem_flatten_hypPaths g n h]
+
+/-- without simulate_root the fake root is never reported -/
+theorem C13_common_no_root (g : Adj) (fuel : Nat) (a b : Nat) :
+    (none : N) ∉ commonHypernyms g fuel (some a) (some b) false := by
+  simp only [commonHypernyms, commonOf, mem_sortN, List.mem_filter, mem_dedup]
+  intro hm
+  have : (none : N) ∉ (hypPaths g fuel (some a) false true).flatten := by
+    simp only [hypPaths, Bool.false_and, Bool.false_eq_true, if_false, if_true]
+    split <;> simp
+  exact this hm.1
+
+/-- lowest_common_hypernyms = the common hypernyms of greatest recorded depth -/
+theorem C13_lowest (g : Adj) (fuel : Nat) (a b : N) (sim : Bool) (c : N) :
+    c ∈ lowestCommonHypernyms g fuel a b sim ↔
+      ∃ d, (c, d) ∈ (shortestHypPaths g fuel a b sim).map (·.1) ∧
+        d = listMax ((shortestHypPaths g fuel a b sim).map (·.1.2)) := by
+  unfold lowestCommonHypernyms
+  cases hpm : shortestHypPaths g fuel a b sim with
+  | nil => simp
+  | cons e t =>
+    simp only [List.mem_map, List.mem_filter]
+    constructor
+    · rintro ⟨x, ⟨hx, hd⟩, rfl⟩
+      refine ⟨x.1.2, ⟨x, hx, rfl⟩, ?_⟩
+      simpa using hd
+    · rintro ⟨d, ⟨x, hx, hxe⟩, hd⟩
+      refine ⟨x, ⟨hx, ?_⟩, ?_⟩
+      · have : x.1.2 = d := by rw [hxe]
+        simp [this, hd]
+      · rw [hxe]
+
+/-- the keys of the path map are exactly the common hypernyms (for distinct synsets) -/
+theorem C13_pathmap_keys (g : Adj) (fuel : Nat) (a b : N) (sim : Bool) (hab : (a == b) = false) :
+    (shortestHypPaths g fuel a b sim).map (·.1.1) = commonHypernyms g fuel a b sim := by
+  simp [shortestHypPaths, hab, commonHypernyms, List.map_map, Function.comp_def]
+
+/-- shortest_path(a, a) is empty -/
+theorem C13_shortest_self (g : Adj) (fuel : Nat) (a : N) (sim : Bool) :
+    shortestPath g fuel a a sim = some [] := by
+  simp [shortestPath, shortestHypPaths]
+
+/-- shortest_path raises exactly when the two synsets share no hypernym -/
+theorem C13_error_iff_disjoint (g : Adj) (fuel : Nat) (a b : N) (sim : Bool) (hab : (a == b) = false) :
+    shortestPath g fuel a b sim = none ↔ commonHypernyms g fuel a b sim = [] := by
+  rw [← C13_pathmap_keys g fuel a b sim hab]
+  unfold shortestPath
+  cases shortestHypPaths g fuel a b sim with
+  | nil => simp
+  | cons e t => simp
+
+/-- with simulate_root the fake root is always shared, so no error -/
+theorem C13_simulate_root_connects (g : Adj) (fuel : Nat) (a b : Nat) :
+    (none : N) ∈ commonHypernyms g fuel (some a) (some b) true := by
+  have key : ∀ x : Nat, (none : N) ∈ (hypPaths g fuel (some x) true true).flatten := by
+    intro x
+    simp only [hypPaths, Bool.true_and]
+    have hx : ((some x : N) != none) = true := by simp
+    simp only [hx, if_true]
+    split
+    · split <;> simp
+    · split
+      · simp
+      · rename_i h1 h2
+        simp only [List.isEmpty_iff] at h2
+        obtain ⟨p, hp⟩ := List.exists_mem_of_ne_nil _ h2
+        exact List.mem_flatten.mpr ⟨p ++ [none], List.mem_map.mpr ⟨p, hp, rfl⟩, by simp⟩
+  simp only [commonHypernyms, commonOf, mem_sortN, List.mem_filter, mem_dedup, List.contains_iff_mem]
+  exact ⟨key a, key b⟩
+
+/-- roots / leaves: the synsets of the part of speech without hypernyms / hyponyms -/
+theorem C13_roots (g : Adj) (n : Nat) (pos : Nat → String) (p : String) (x : Nat) :
+    x ∈ roots g n pos p ↔ x ∈ synsetsForPos n pos p ∧ g x = [] := by
+  simp [roots, List.mem_filter, List.isEmpty_iff]
+
+theorem C13_leaves (hypo : Adj) (n : Nat) (pos : Nat → String) (p : String) (x : Nat) :
+    x ∈ leaves hypo n pos p ↔ x ∈ synsetsForPos n pos p ∧ hypo x = [] := by
+  simp [leaves, List.mem_filter, List.isEmpty_iff]
+
+/-- a/s merging of `_synsets_for_pos` -/
+theorem C13_pos_merge (n : Nat) (pos : Nat → String) (x : Nat) :
+    (x ∈ synsetsForPos n pos "a" ↔ x < n ∧ (pos x = "a" ∨ pos x = "s")) ∧
+    (x ∈ synsetsForPos n pos "s" ↔ x < n ∧ (pos x = "a" ∨ pos x = "s")) := by
+  constructor <;> simp [synsetsForPos, List.mem_filter, List.mem_range] <;> constructor <;> intro h
+  · rcases h with h | h <;> exact ⟨h.1, by simp [h.2]⟩
+  · rcases h.2 with h' | h' <;> simp [h.1, h']
+  · rcases h with h | h <;> exact ⟨h.1, by simp [h.2]⟩
+  · rcases h.2 with h' | h' <;> simp [h.1, h']
+
+/-! ### taxonomy_depth: the `seen` shortcut is wrong on cyclic graphs (known finding F14) -/
+
+def cyc3 : Adj := fun i => match i with
+  | 0 => [0, 2]
+  | 1 => [2]
+  | 2 => [0]
+  | _ => []
+
+/-- kernel-checked counter-example: on the 3-node graph 0→0, 0→2, 1→2, 2→0 the
+model of `taxonomy_depth` (which mirrors the code) returns 1 while the longest
+hypernym chain is 1 → 2 → 0.  The same graph is replayed on the real library
+(corpus/C13/F14-taxonomy-depth-cyclic.json). -/
+theorem C13_depth_cyclic_counterexample :
+    taxonomyDepth cyc3 4 3 (fun _ => "n") "n" = 1 ∧ longestChain cyc3 4 3 (fun _ => "n") "n" = 2 := by
+  decide
 
 end WnVerif.Props.C13
